@@ -141,8 +141,20 @@ class C01(EngineBase):
                 pass
         return tags
 
+    @staticmethod
+    def _audit(v):
+        """The auditor; a value so malformed that it cannot even be inspected
+        (an attribute every array or index has is missing, a table is not a
+        mapping) is a finding about the value, not a failure of the harness."""
+        try:
+            return audit(v)
+        except HarnessError:
+            raise
+        except Exception as e:  # noqa: BLE001
+            return [("uninspectable", f"{type(e).__name__}: {str(e)[:120]}")]
+
     def _audit_value(self, st, step, vals, res, what="result"):
-        probs = audit(res)
+        probs = self._audit(res)
         st.stats["oracle.audited"] += 1
         if probs:
             rule, detail = probs[0]
@@ -155,7 +167,7 @@ class C01(EngineBase):
         for n, v in list(st.heap.items()):
             if S.kind_of(v) not in "AFV":
                 continue
-            probs = audit(v)
+            probs = self._audit(v)
             st.stats["oracle.audited"] += 1
             if probs:
                 rule, detail = probs[0]
@@ -255,6 +267,9 @@ class C01(EngineBase):
         st.stats["op." + op] += 1
         if "variant" in step:
             st.stats["reach.variant." + step["variant"]] += 1
+        # (audited before anything else looks at it: a malformed result must
+        # surface as a finding, not as an exception in the bookkeeping below)
+        ok = self._audit_value(st, step, vals, res)
         if S.kind_of(res) in "AF":
             st.states.add(core.digest([op, S.structure(res)])[:12])
             ix = res.indices
@@ -266,7 +281,6 @@ class C01(EngineBase):
                     st.stats["reach.multi_label"] += 1
                 if S.raw_phases(res):
                     st.stats["reach.pending_result"] += 1
-        ok = self._audit_value(st, step, vals, res)
         st.log.add("ok", [op, S.structure(res) if S.kind_of(res) in "AF" else S.kind_of(res)])
         if not ok:
             # known finding: the invalid value is not fed back
